@@ -3,7 +3,7 @@ From Sq Require Import Base.Bytes Templ.Model.
 From Sq Require Export Templ.IterProofs Templ.ProcProofs Templ.LitProofs.
 From Coq Require Import ZArith Lia.
 
-(** * The code before the repair (fix 7ed96a0): witnesses *)
+(** * The code before the repair (fix 7940035): witnesses *)
 
 (** [ab:x c] with [x = 1] (colon style): rendered [ab1 c]; slices literal 0..2/0..2, templated
     2..4/2..3, literal 4..6/3..5; tokens [ab1] 0..3, blank 3..4, [c] 4..5. *)
